@@ -150,6 +150,7 @@ class BleController(AbstractController):
             timeout,
         )
         future = asyncio.get_running_loop().create_future()
+        self._ble_futures.setdefault(device_id, []).append(future)
         try:
             async with asyncio_timeout(timeout):
                 return await future
